@@ -308,7 +308,12 @@ func (vc *FuncVC) leafHeaps(prefix string, t types.Type, out map[string]bool) {
 	switch u := t.Underlying().(type) {
 	case *types.Struct:
 		if n, ok := t.(*types.Named); ok && !vc.isLocalStruct(n) {
-			// external struct: its fields are never accessed directly; ghost fields are handled by contracts
+			// external struct: only its scalar fields are modelled
+			for i := 0; i < u.NumFields(); i++ {
+				if vc.sortOf(u.Field(i).Type()) != "" {
+					out[prefix+"."+u.Field(i).Name()] = true
+				}
+			}
 			return
 		}
 		for i := 0; i < u.NumFields(); i++ {
@@ -488,6 +493,11 @@ func (vc *FuncVC) callMods(c *ssa.CallCommon, out map[string]bool, depth int) {
 				return
 			}
 		}
+		if f.Blocks == nil || !strings.HasPrefix(f.String(), modPath) {
+			// library function without contract: same rule as at the call itself
+			vc.argTypeMods(c, out)
+			return
+		}
 		out["*"] = true
 	case *ssa.MakeClosure:
 		fn := f.Fn.(*ssa.Function)
@@ -616,6 +626,15 @@ func (vc *FuncVC) resolveHeap(short string, pkg *types.Package) (string, Sort) {
 	}
 	if short == "$alloc" {
 		return short, ArraySort(SRef, SBool)
+	}
+	if strings.HasPrefix(short, "ghost.") {
+		name := short[len("ghost."):]
+		gs, ok := vc.w.specs.GhostVars[name]
+		if !ok {
+			trFail("unknown ghost variable %s", name)
+		}
+		s, _ := vc.specSort(gs, pkg)
+		return "global.$ghost." + name, s
 	}
 	if strings.HasPrefix(short, "global.") {
 		name := short[len("global."):]
